@@ -17,11 +17,11 @@ func init() {
 		Cases: func(tier string) int {
 			switch tier {
 			case "thorough":
-				return 1500000
+				return 2500000
 			case "race":
 				return 50000
 			}
-			return 120000
+			return 400000
 		},
 		Run:            c08Run,
 		Floor:          func(tier string) int { return 5000 },
